@@ -79,7 +79,12 @@ is_822_local (const char *start, const char *end)
         else {
             /* qtext = <any CHAR excepting <">, "\" & CR, and including linear-white-space> */
             switch (ch) {
-            case '"':  { quote = 0; break; }
+            case '"': {
+                if ((cp + 1) < end && cp[1] != '.')
+                    return inverse(EEAV_LPART_MISPLACED_QUOTE);
+                quote = 0;
+                break;
+            }
             case '\\': { qpair = 1; break; }
             /* excepting CR, and including linear-white-space> */
             case '\r': {
